@@ -51,6 +51,10 @@ pub enum Target {
     DevFull,
     /// the same through a link of this name (concurrent callers need distinct names)
     DevFullNamed(String),
+    /// real-kernel fault: the path is a symbolic link to a directory
+    SymlinkToDir,
+    /// real-kernel fault: the path is a symbolic link to itself (ELOOP)
+    SymlinkLoop,
     /// real-kernel fault: a path that names a directory in an unusual way (no final component,
     /// trailing slash, dot components): index into `ODD_PATHS`
     Odd(u8),
@@ -84,6 +88,8 @@ impl Target {
             Target::Empty => "empty",
             Target::DevFull | Target::DevFullNamed(_) => "dev_full",
             Target::Odd(_) => "odd_dir_path",
+            Target::SymlinkToDir => "symlink_to_dir",
+            Target::SymlinkLoop => "symlink_loop",
         }
     }
     /// The kernel itself makes creating or fully writing this target impossible.
@@ -107,6 +113,12 @@ pub enum Pre {
     Removed,
     /// an existing unrelated file of this length
     Other(usize),
+    /// the path is a symbolic link to a regular file holding the expected bytes plus this many more
+    SymlinkToFile(usize),
+    /// the path is a symbolic link whose target does not exist (yet)
+    DanglingSymlink,
+    /// the path is one of two hard links to a longer file
+    HardLinkTwin,
 }
 
 impl Pre {
@@ -119,6 +131,9 @@ impl Pre {
             Pre::Garbage => "garbage",
             Pre::Removed => "removed",
             Pre::Other(_) => "other",
+            Pre::SymlinkToFile(_) => "symlink_to_file",
+            Pre::DanglingSymlink => "dangling_symlink",
+            Pre::HardLinkTwin => "hard_link_twin",
         }
     }
 }
@@ -527,7 +542,9 @@ pub fn gen_run(verif_seed: u64, index: u64) -> IoRun {
         let is_img = kind == Kind::Png;
         let mut setters = gen::gen_rsetters(&mut rng, is_img, is_img, false);
         let target = if sw.real_kernel && rng.chance(1, 5) {
-            match rng.below(9) {
+            match rng.below(11) {
+                9 => Target::SymlinkToDir,
+                10 => Target::SymlinkLoop,
                 0 => Target::MissingDir(rng.pick(&names).clone()),
                 1 => Target::IsDir,
                 2 => Target::NotDir,
@@ -543,14 +560,17 @@ pub fn gen_run(verif_seed: u64, index: u64) -> IoRun {
             Target::Scratch(rng.pick(&names).clone())
         };
         let pre = if sw.prestate {
-            match rng.weighted(&[40, 15, 25, 10, 10, 4, 6]) {
+            match rng.weighted(&[40, 15, 25, 10, 10, 4, 6, 4, 3, 3]) {
                 0 => Pre::Absent,
                 1 => Pre::Shorter,
                 2 => Pre::Longer(*rng.pick(&[1usize, 17, 4096, 100_000])),
                 3 => Pre::Identical,
                 4 => Pre::Garbage,
                 5 => Pre::Removed,
-                _ => Pre::Other(*rng.pick(&[0usize, 1, 100, 5000, 300_000])),
+                6 => Pre::Other(*rng.pick(&[0usize, 1, 100, 5000, 300_000])),
+                7 => Pre::SymlinkToFile(*rng.pick(&[0usize, 1, 5000])),
+                8 => Pre::DanglingSymlink,
+                _ => Pre::HardLinkTwin,
             }
         } else {
             Pre::Absent
@@ -937,6 +957,8 @@ fn resolve_path(dir: &Path, t: &Target) -> String {
         Target::DevFull => format!("{}/full-device", d),
         Target::DevFullNamed(n) => format!("{}/{}", d, n),
         Target::Odd(i) => ODD_PATHS[(*i as usize) % ODD_PATHS.len()].replace("{d}", d),
+        Target::SymlinkToDir => format!("{}/link-to-directory", d),
+        Target::SymlinkLoop => format!("{}/link-to-itself", d),
     }
 }
 
@@ -1054,6 +1076,15 @@ pub fn exec_op(dir: &Path, idx: usize, op: &IoOp, stats: &mut Stats, pre: Option
         Target::NotDir => {
             let _ = std::fs::write(dir.join("a-file"), b"i am a file");
         }
+        Target::SymlinkToDir => {
+            let _ = std::fs::create_dir_all(dir.join("a-directory"));
+            let _ = std::fs::remove_file(&path);
+            let _ = std::os::unix::fs::symlink(dir.join("a-directory"), &path);
+        }
+        Target::SymlinkLoop => {
+            let _ = std::fs::remove_file(&path);
+            let _ = std::os::unix::fs::symlink(&path, &path);
+        }
         Target::Odd(_) => {
             let _ = std::fs::create_dir_all(dir.join("a-directory"));
             let _ = std::fs::write(dir.join("a-file"), b"i am a file");
@@ -1084,6 +1115,33 @@ pub fn exec_op(dir: &Path, idx: usize, op: &IoOp, stats: &mut Stats, pre: Option
                     None
                 }
                 Pre::Other(n) => Some((0..*n).map(|i| b"unrelated content\n"[i % 18]).collect()),
+                Pre::SymlinkToFile(extra) => {
+                    let real = format!("{}.real", path);
+                    let mut v = expected.clone();
+                    v.extend(std::iter::repeat(b'Y').take(*extra));
+                    let _ = std::fs::remove_file(&path);
+                    if std::fs::write(&real, &v).is_ok() {
+                        let _ = std::os::unix::fs::symlink(&real, &path);
+                    }
+                    None
+                }
+                Pre::DanglingSymlink => {
+                    let _ = std::fs::remove_file(&path);
+                    let _ = std::fs::remove_file(format!("{}.not-yet", path));
+                    let _ = std::os::unix::fs::symlink(format!("{}.not-yet", path), &path);
+                    None
+                }
+                Pre::HardLinkTwin => {
+                    let twin = format!("{}.twin", path);
+                    let mut v = expected.clone();
+                    v.extend(std::iter::repeat(b'T').take(333));
+                    let _ = std::fs::remove_file(&path);
+                    let _ = std::fs::remove_file(&twin);
+                    if std::fs::write(&twin, &v).is_ok() {
+                        let _ = std::fs::hard_link(&twin, &path);
+                    }
+                    None
+                }
             };
             match pre {
                 None => {
@@ -1094,6 +1152,9 @@ pub fn exec_op(dir: &Path, idx: usize, op: &IoOp, stats: &mut Stats, pre: Option
                     }
                 }
                 Some(v) => {
+                    if std::fs::symlink_metadata(&path).map(|m| m.file_type().is_symlink()).unwrap_or(false) {
+                        let _ = std::fs::remove_file(&path);
+                    }
                     std::fs::write(&path, &v).expect("write pre-state");
                 }
             }
